@@ -40,7 +40,7 @@ def is_absent(v):
 
 
 values = gen.json_values(6)
-codes = st.one_of(
+codes = gen.pick(
     st.integers(-32710, -31990),
     st.sampled_from([-32700, -32701, -32699, -32000, -31999, -32001, 0, 1, -1, 2 ** 40, -(2 ** 40)]),
     st.floats(allow_nan=False, allow_infinity=False),
@@ -59,18 +59,18 @@ contexts = st.sampled_from(["plain", "plain", "block", "ctor+block", "nested", "
 
 
 # replies longer than the transport's read size, written in raw UTF-8 (an extra envelope member carries the padding)
-pads = st.one_of(st.just(None), st.just(None), st.just(None),
+pads = gen.pick(st.just(None), st.just(None), st.just(None),
                  st.tuples(st.integers(0, 3), st.sampled_from([1000, 1020, 2040, 3070, 5000]), st.sampled_from(["é", "€", "😀", "x"])))
 
 
 @st.composite
 def error_objects(draw):
     e = {}
-    c = draw(st.one_of(st.just(ABSENT), codes, codes, codes))
+    c = draw(gen.pick(st.just(ABSENT), codes, codes, codes))
     if not is_absent(c):
         e["code"] = c
     for k in ("message", "trace", "data"):
-        v = draw(st.one_of(st.just(ABSENT), values, st.text(max_size=6)))
+        v = draw(gen.pick(st.just(ABSENT), values, st.text(max_size=6)))
         if not is_absent(v):
             e[k] = v
     for k in draw(st.lists(st.sampled_from(["reason", "x", "code ", "Code"]), max_size=2, unique=True)):
@@ -78,7 +78,7 @@ def error_objects(draw):
     return e
 
 
-errors = st.one_of(
+errors = gen.pick(
     error_objects(), error_objects(),
     st.dictionaries(gen.json_keys(), values, min_size=1, max_size=1),
     st.text(min_size=1, max_size=12).filter(lambda t: t != ABSENT),
@@ -95,8 +95,8 @@ def error_cases(draw):
     return {
         "error": error,
         "v2": draw(st.booleans()),
-        "result": draw(st.one_of(st.just(ABSENT), st.just(ABSENT), values)),
-        "id": draw(st.one_of(st.integers(0, 5), st.none(), st.text(max_size=3))),
+        "result": draw(gen.pick(st.just(ABSENT), st.just(ABSENT), values)),
+        "id": draw(gen.pick(st.integers(0, 5), st.none(), st.text(max_size=3))),
         "path": draw(st.sampled_from(PATHS)),
         "pos": draw(st.integers(0, 3)),
         "n": draw(st.integers(1, 4)),
@@ -111,8 +111,8 @@ def success_cases(draw):
     return {
         "error": draw(st.sampled_from([ABSENT, None])),
         "v2": draw(st.booleans()),
-        "result": draw(st.one_of(values, st.sampled_from([None, 0, 0.0, -0.0, False, "", [], {}]))),
-        "id": draw(st.one_of(st.integers(0, 5), st.text(max_size=3))),
+        "result": draw(gen.pick(values, st.sampled_from([None, 0, 0.0, -0.0, False, "", [], {}]))),
+        "id": draw(gen.pick(st.integers(0, 5), st.text(max_size=3))),
         "path": draw(st.sampled_from(PATHS)),
         "pos": draw(st.integers(0, 3)),
         "n": draw(st.integers(1, 4)),
